@@ -114,6 +114,7 @@ def run_sequence(item):
     out = dict(seed=seed, steps=[], reqs=[])
     added = {}       # (name) -> {version: expected}
     bases = []       # (file_base, name, family)
+    listed = {}      # name -> versions successfully added so far (all kinds)
     today = datetime.date.today().isoformat()
     nsteps = rng.randrange(1, 9)
     for step in range(nsteps):
@@ -221,6 +222,17 @@ def run_sequence(item):
                 rec['bad'].append(('index_consistent', 'the index can no longer be regenerated (%s) after this step' % rg[1]))
             elif rg[1] != idx:
                 rec['bad'].append(('index_consistent', 'METADATA.json differs from its regeneration'))
+            else:
+                # every name added so far lists exactly the versions added under it (nothing borrowed from another basis)
+                from basis_set_exchange import misc as _misc
+                if rec['raised'] is None and kind in ('dict', 'file', 'components'):
+                    listed.setdefault(_misc.transform_basis_name(name), set()).add(version)
+                for nm, vers in listed.items():
+                    ent = idx.get(nm)
+                    if ent is None or set(ent['versions']) != set(vers):
+                        rec['bad'].append(('index_consistent', 'the index lists versions %s for %r, added were %s'
+                                           % (sorted(ent['versions']) if ent else None, nm, sorted(vers))))
+                        break
         rec['after_files'] = {p: json.loads(v) for p, v in after.items() if p.endswith('.json')}
         if rec['raised'] is None and kind in ('dict', 'file', 'components'):
             if kind != 'components':
@@ -255,6 +267,18 @@ def run_sequence(item):
                                 break
                     if b['version'] != version or b['description'] != 'desc ' + name and len(added[name]) == 1:
                         rec['bad'].append(('retrievable', 'version / description of the retrieved basis are not the supplied ones'))
+                # every earlier addition is still retrievable and still carries its own data
+                for nm, vers in added.items():
+                    for v0, exp0 in vers.items():
+                        if (nm, v0) == (name, version):
+                            continue
+                        r0 = in_child(fresh_get, (d, nm, v0))
+                        if r0[0] != 'ok':
+                            rec['bad'].append(('retrievable', 'after this step %r version %s can no longer be retrieved: %s' % (nm, v0, r0[1])))
+                        elif set(r0[1]['elements']) != set(exp0['elements']) or any(
+                                (el_funcs_multiset(r0[1]['elements'][z]) if 'electron_shells' in r0[1]['elements'][z] else None) != e0['shells']
+                                for z, e0 in exp0['elements'].items()):
+                            rec['bad'].append(('retrievable', 'after this step %r version %s no longer carries the data supplied for it' % (nm, v0)))
                 # newest version is the default
                 r = in_child(fresh_get, (d, name, None))
                 if r[0] == 'ok' and r[1]['version'] != max(added[name]):
